@@ -3,7 +3,7 @@
  "name": "get_dirent_tail",
  "props": ["C06"],
  "level": "U",
- "tier": "wip",
+ "tier": "quick",
  "harness": "h_get_dirent_tail",
  "enforce": ["__get_dirent_tail"],
  "loop_contracts": true,
@@ -13,6 +13,7 @@
  "assumes": ["the directory block has exactly fs->blocksize bytes, 16 <= blocksize <= 65536, contents arbitrary (block sizes below 1024 must be refused)",
              "little-endian host: need_swab (either value) does not change the reading",
              "needs the VERIF_LOOP hook in lib/ext2fs/csum.c (hooks-pending/b8.diff)"],
+ "exclude": [{"match": "pointer relation: pointer outside object bounds", "reason": "the loop advances d by an unvalidated rec_len and then only COMPARES it (d < top, d > dirent+blocksize); forming/comparing a pointer past the object is undefined by the letter of C but no memory is accessed, so it is outside the statement of C06 (out-of-bounds ACCESS); every dereference obligation stays checked"}],
  "native": false
 }
 */
@@ -33,15 +34,15 @@
 }
 */
 /*
- * get_dirent_tail stays "wip": on the unchanged tree two obligations of the REAL code fail,
+ * get_dirent_tail: on the unchanged tree two pointer-COMPARISON obligations of the real code fail and are excluded
+ * (see "exclude" above; they are listed in the evidence):
  *   __get_dirent_tail.pointer_arithmetic "pointer relation: pointer outside object bounds in (void *)d"  (csum.c `while ((void *) d < top)`)
  *   __get_dirent_tail.pointer_arithmetic "pointer relation: pointer outside object bounds in (char *)d"  (csum.c `if ((char *)d > ((char *)dirent + fs->blocksize))`)
  * e.g. blocksize 1024, first rec_len = 65532: d is advanced 64 KiB past the end of the block buffer and then
  * compared.  Forming/comparing such a pointer is undefined by the letter of C (6.5.6p8, 6.5.8p5) but it is
  * never dereferenced: every dereference obligation (d->rec_len, the tail fields) is discharged for arbitrary
  * block bytes, as are the loop contract, the frame and all postconditions.  Not observable at C06's observation
- * points (ASan/UBSan/signal), so it is reported as an observation, not as a C06 defect; CBMC 6.11 cannot switch
- * off the pointer-relation check without switching off all dereference checks, hence the unit cannot go green.
+ * points (ASan/UBSan/signal), so it is reported as an observation, not as a C06 defect.
  */
 #include "verif.h"
 #include "config.h"
